@@ -78,6 +78,13 @@ Theorem C10_translated_ltk_new_is_model :
 Proof. exact gen_ltk_new_model. Qed.
 Print Assumptions C10_translated_ltk_new_is_model.
 
+Theorem C10_translated_ltk_accessors :
+  forall H, HashLen H -> forall ed_pk seed,
+  obind (gen_ltk_new ed_pk H seed) (fun k => gen_ltk_public_key ed_pk (fst k)) = Ok (ed_pk seed)
+  /\ obind (gen_ltk_new ed_pk H seed) (fun k => gen_ltk_srv_value (snd k)) = Ok (ltk_srv_value H ed_pk seed).
+Proof. exact gen_ltk_accessors_model. Qed.
+Print Assumptions C10_translated_ltk_accessors.
+
 Theorem C10_translated_responder_new_is_model :
   forall ed_pk ed_sign v lt online_seed,
   ok_opt (gen_responder_new online_seed ed_pk ed_sign v tt lt)
